@@ -12,8 +12,8 @@ vars == <<ph, wsch, wv, rsch>>
 Types == {"u8", "str", "bytes", "cu", "inA", "inM", "e2", "io"}
 \* ---- values ----
 ValsT(ty) == CASE ty = "u8"    -> {FV(TRUE, 7, <<>>, <<>>), FV(TRUE, 200, <<>>, <<>>)}
-               [] ty = "str"   -> {FV(TRUE, 0, <<>>, <<>>), FV(TRUE, 0, <<97, 98>>, <<>>)}
-               [] ty = "bytes" -> {FV(TRUE, 0, <<>>, <<>>), FV(TRUE, 0, <<1, 2>>, <<>>)}
+               [] ty \in TextTys  -> {FV(TRUE, 0, <<>>, <<>>), FV(TRUE, 0, <<97, 98>>, <<>>)}
+               [] ty \in BytesTys -> {FV(TRUE, 0, <<>>, <<>>), FV(TRUE, 0, <<1, 2>>, <<>>)}
                [] ty = "cu"    -> {FV(TRUE, 5, <<>>, <<>>)}
                [] ty \in {"inA", "inM"} -> {FV(TRUE, 0, <<>>, <<FV(TRUE, 7, <<>>, <<>>), None>>), FV(TRUE, 0, <<>>, <<FV(TRUE, 200, <<>>, <<>>), FV(TRUE, 1, <<>>, <<>>)>>)}
                [] ty = "e2"    -> {FV(TRUE, 0, <<>>, [var |-> 1, fv |-> <<>>]), FV(TRUE, 0, <<>>, [var |-> 2, fv |-> <<FV(TRUE, 9, <<>>, <<>>)>>])}
@@ -59,6 +59,10 @@ OptSpell == { Struct(e, -1, "named", <<F(0, FALSE, -1, "u8"), Fo(1, t, ty, sp), 
             \cup { Struct(e, -1, "named", <<Fo(0, -1, "u8", sp)>>) : e \in Encs, sp \in {"boxed", "alias", "generic"} }
             \cup { Enum(e, -1, FALSE, <<Variant(0, e, -1, "unit", <<>>), Variant(1, ve, -1, "named", <<F(0, FALSE, -1, "u8"), Fo(1, -1, "u8", sp)>>)>>) :
                     e \in Encs, ve \in Encs, sp \in {"boxed", "alias"} }
+\* fields that borrow from the decoding input
+Borrowing == { Struct(e, -1, "named", <<F(0, FALSE, -1, "u8"), F(1, o, t, bty)>>) : e \in Encs, o \in BOOLEAN, t \in {-1, 7}, bty \in {"bstr", "bslice", "bu8"} }
+             \cup { Struct(e, -1, sh, <<F(0, FALSE, -1, cty), F(2, TRUE, -1, "bstr")>>) : e \in Encs, sh \in {"named", "tuple"}, cty \in {"cowb", "cown"} }
+             \cup { Enum("array", -1, FALSE, <<Variant(0, "array", -1, "unit", <<>>), Variant(1, ve, -1, "named", <<F(0, FALSE, -1, "bstr"), F(1, TRUE, -1, "bslice")>>)>>) : ve \in Encs }
 \* enums: unit / tuple / named variants, encoding at enum and variant level, tags at both levels, index_only
 EnumsF == { Enum(e, et, FALSE, <<Variant(0, ve, ut, "unit", <<>>), Variant(1, ve, vt, "tuple", <<F(0, o, ft, "u8"), F(1, TRUE, -1, "str")>>),
                                  Variant(5, e, -1, "named", <<F(1, FALSE, -1, "u8"), F(3, o, -1, "u8")>>)>>) :
@@ -70,8 +74,8 @@ EnumsQ == { S \in EnumsF : (S.tag = 7 => S.variants[2].tag = -1) /\ (S.variants[
 Big(e) == Struct(e, -1, "named", [i \in 1..25 |-> F(i - 1, TRUE, -1, "u8")])
 BigVals == { [i \in 1..25 |-> IF i \in s THEN FV(TRUE, 7, <<>>, <<>>) ELSE None] : s \in {{}, {1}, {24}, {25}, {1, 25}, 1..23, 1..24, 1..25, 2..25} }
 
-Family == IF Tier = "quick" THEN { S \in OneFieldQ : S.fields[1].idx = 0 \/ S.fields[1].ty \in {"u8", "e2", "cu"} } \cup { S \in ThreeFieldsQ : S.shape = "named" } \cup Misc \cup EnumsQ \cup OptSpell
-          ELSE OneFieldQ \cup ThreeFieldsQ \cup Misc \cup EnumsQ \cup OptSpell
+Family == IF Tier = "quick" THEN { S \in OneFieldQ : S.fields[1].idx = 0 \/ S.fields[1].ty \in {"u8", "e2", "cu"} } \cup { S \in ThreeFieldsQ : S.shape = "named" } \cup Misc \cup EnumsQ \cup OptSpell \cup Borrowing
+          ELSE OneFieldQ \cup ThreeFieldsQ \cup Misc \cup EnumsQ \cup OptSpell \cup Borrowing
 
 \* ---- compatible changes (reader schemas derived from a writer schema) ----
 SetField(S, i, f) == [S EXCEPT !.fields[i] = f]
@@ -99,7 +103,7 @@ Next == \/ ph = "fam" /\ wsch' \in Family /\ ph' = "val" /\ UNCHANGED <<wv, rsch
         \/ ph = "pair" /\ rsch' \in ReadersOf(wsch) /\ ph' = "pdone" /\ UNCHANGED <<wsch, wv>>
 Case(name, in, exp) == PrintT(<<"CASE", ToJson([fam |-> "derive", name |-> name, in |-> in, exp |-> exp])>>)
 DecExp(w, r, v, b) == LET p == Project(w, r, v) IN
-   IF p[1] = "ok" THEN [ok |-> TRUE, val |-> p[2], pos |-> Len(b)] ELSE [ok |-> FALSE, val |-> <<>>, pos |-> 0]
+   IF p[1] = "ok" THEN [ok |-> TRUE, val |-> p[2], pos |-> Len(b), bor |-> TRUE] ELSE [ok |-> FALSE, val |-> <<>>, pos |-> 0, bor |-> TRUE]
 Emit == /\ (ph' = "done") =>
              LET b == DocEnc(wsch', wv') IN
              /\ Case("enc", [schema |-> wsch', val |-> wv'], [bytes |-> b, len |-> Len(b)])
@@ -111,6 +115,14 @@ Emit == /\ (ph' = "done") =>
         /\ (ph' = "done") =>
              \A pt \in Perturbations(wsch', wv') :
                 Case("dec", [schema |-> wsch', bytes |-> DocEncP(wsch', wv', pt), rel |-> "badtag", pt |-> pt], [ok |-> FALSE, val |-> <<>>, pos |-> 0])
+        \* C09: a missing mandatory field and an unknown variant at top level are errors
+        /\ (ph' = "done" /\ wsch'.kind = "struct" /\ ~wsch'.transparent) =>
+             \A i \in { j \in 1..Len(wsch'.fields) : ~wsch'.fields[j].opt /\ ~wsch'.fields[j].skip } :
+                LET w == DropField(wsch', i)  v == SubSeq(wv', 1, i - 1) \o SubSeq(wv', i + 1, Len(wv')) IN
+                Case("dec", [schema |-> wsch', bytes |-> DocEnc(w, v), rel |-> "missing", dropped |-> i], [ok |-> FALSE, val |-> <<>>, pos |-> 0])
+        /\ (ph' = "done" /\ wsch'.kind = "enum") =>
+             Case("dec", [schema |-> wsch', bytes |-> TagPrefix(wsch'.tag) \o (IF wsch'.index_only THEN Uint(41) ELSE <<130>> \o Uint(41) \o <<128>>), rel |-> "unkvar"],
+                  [ok |-> FALSE, val |-> <<>>, pos |-> 0])
         /\ (ph' = "pdone") =>
              LET b == DocEnc(wsch, wv) IN
              \* forward: the reader rsch' decodes what the writer wsch wrote; backward: wsch decodes what rsch' writes (for values rsch' has)
